@@ -4,6 +4,12 @@ PENDING = "not yet claimed in this revision: model/theorems under construction (
 NOT_APPLICABLE = {("C%02d" % i): PENDING for i in range(1, 21)}
 
 META = {
+    "C18": dict(
+        text="Kernel-checked, by induction over ANY operation list over any number of shared and local timers: timer_contribution (observations in the histogram + pending in the parent local = timers ended by record/observe/drop + closures + plain parent observations; discarded and running timers contribute nothing), "
+             "record_contributes_one / discard_contributes_nothing / drop_contributes_one, ended_timer_inert, parent_untouched (a local timer records into a private cleared clone, flushed on drop). "
+             "Tie: histories over real HistogramTimer / LocalHistogramTimer (stops also on another thread) vs the model after every operation; oracle: exact expected count, returned durations >= 0, closure result returned.",
+        note="The clock is an environment input (modelled, not verified); Rust ownership makes a second stop of one timer impossible, the model treats it as inert.",
+    ),
     "C12": dict(
         text="Kernel-checked, by induction over ANY operation list and any number of handles: counter_conservation (shared + pending in all handles + discarded by reset = everything ever added), "
              "flush_exact, flush_idempotent, reset_discards_only_local, clone_empty; histogram_conservation (shared sample count + pending in live local histograms + cleared = all observations, dropped handles included), "
